@@ -192,7 +192,7 @@ class Prog:
             return False
         f = self.frames[0]
         if any(x != plt for x in f["pend"]):
-            return False          # keep out of the mixed-kind chain class (C11_rehook_mixed_chain_refuted)
+            self.tags.add("tail-call-mixed-chain")
         if plt:
             self.emit("TPlt", self.rng.choice(KIND_IDX["KNone"]), f["slot"])
         else:
@@ -444,8 +444,8 @@ def gen_free(rng, n):
 WITNESS_RESUME_ALIAS = [      # regression (fixed by /repo 0bd540c): _Unwind_Resume at the slot of the frame just unwound
     ("Call", 0, 100, 11, 103), ("Call", 1, 90, 12, 99), ("Call", 2, 80, 13, 89),
     ("Throw",), ("Unwind",), ("Resume", 80, 14), ("Unwind",), ("Catch", 99), ("Ret", 100)]
-MIXED_CHAIN = [               # PLT function tail-calls a traced function that throws and catches itself
-    ("Call", 0, 100, 11, 103), ("Plt", 0, 90, 12, 0), ("TCall", 1, 90, 92), ("Throw",), ("Catch", 89), ("Ret", 90)]
+MIXED_CHAIN = [               # regression (/repo fix C01-9): PLT function tail-calls a traced function that throws and catches
+    ("Call", 0, 100, 11, 103), ("Plt", 0, 90, 12, 0), ("TCall", 1, 90, 92), ("Throw",), ("Catch", 89), ("Ret", 90), ("Ret", 100)]
 WITNESS_FENTRY = [            # -mfentry style frame address: the dead callee's entry survives as a phantom parent
     ("Call", 0, 100, 11, 103), ("Call", 1, 90, 12, 99), ("Call", 2, 80, 13, 89), ("Throw",), ("Unwind",),
     ("Call", 6, 80, 19, 0), ("Ret", 80)]
@@ -1399,14 +1399,14 @@ def has_nonlocal(ops):
 
 def run_inproc(ctx, objdir):
     h = Harness(ctx, objdir)
-    progs = [({"corpus"}, c) for c in CORPUS + [WITNESS_RESUME_ALIAS]]
+    progs = [({"corpus"}, c) for c in CORPUS + [WITNESS_RESUME_ALIAS, MIXED_CHAIN]]
     for i in range(ctx.n(150, 6000)):
         tags = set()
         realistic = ctx.rng.random() < 0.6
         tags.add("slots:call-site" if realistic else "slots:free")
         ops = Prog(ctx.rng, tags, realistic).run(ctx.rng.choice([15, 30, 50, 70]))
         progs.append((tags, ops))
-    frees = [MIXED_CHAIN, WITNESS_FENTRY]
+    frees = [WITNESS_FENTRY]
     for i in range(ctx.n(200, 5000)):
         frees.append(gen_free(ctx.rng, ctx.rng.choice([8, 20, 40])))
     vprogs = []
@@ -1429,11 +1429,6 @@ def run_inproc(ctx, objdir):
     for ops, res in free:
         ctx.case(key=("free", tuple(ops)), nontrivial=has_nonlocal(ops),
                  tags=["inproc:free", "inproc:free-crash" if res["crashed"] else "inproc:free-complete"], size=len(ops))
-    # listed in-process finding: the mixed PLT/mcount tail-call chain (free[0]) still ends the process?
-    ctx.known_finding("rehook-mixed-chain",
-                      "a tail-call chain mixing a PLT entry and an mcount entry is re-hooked with the trampoline of the oldest "
-                      "entry: plthook_exit `invalid dynsym idx` ends the process", bool(free[0][1]["crashed"]),
-                      {"mode": "inproc", "case": case_json(free[0][0], free[0][1])})
     ev = evaluate_inproc(ctx, legal, free, flags, vforks=vforks)
     if ev is None:
         return None
